@@ -26,6 +26,8 @@ APA = {"C02": [("ColSliceApa", "Agree")], "C15": [("RLStepApa", "Agree")]}
 
 
 def mech_stages(res, prop):
+    if prop == "C06" and Q:
+        return                                   # ComposeOK / BuildOK run in C02's quick check; here only in the thorough tier
     for module, lemmas in MECH.get(prop, []):
         runner.mech_stage(res, module, lemmas)
     for module, inv in APA.get(prop, []):
